@@ -8,6 +8,7 @@ from hypothesis import strategies as st
 from mzverif import gen as G
 from mzverif import lib as L
 from mzverif import model as M
+from mzverif import core
 from mzverif.core import Discard, Sub, Violation, require
 
 ID = "C03"
@@ -131,7 +132,9 @@ def subs(tier: str):
     q = tier == "quick"
     return [
         Sub("serial", check, "hypothesis", strategy=lambda: _case(8 if q else 15, 12, ["serial", "serial", "from_config"], 1), examples=150 if q else 1500),
-        # parallel generation must be started from a top-level process: the library's worker initializer rejects nested
-        # process identities, so this sub-check runs in the harness' parent process (one shard, sequential cases)
-        Sub("parallel", check, "hypothesis", strategy=lambda: _case(6 if q else 10, 12, ["parallel"], 4 if q else 8), examples=50 if q else 500, shards=1, in_parent=True),
+        # parallel generation must be started from a top-level process (the library's worker initializer rejects nested process
+        # identities) and multiprocessing.Pool teardown can dead-lock after a worker error: the sub-check therefore runs in fresh
+        # interpreters, a chunk of cases at a time, each chunk under a wall limit (a hung chunk is killed and counted, not an alarm)
+        Sub("parallel-inner", check, "hypothesis", strategy=lambda: _case(6 if q else 10, 12, ["parallel"], 4 if q else 8), examples=50, shards=1, hidden=True),
+        Sub("parallel", check, "custom", run=core.hypothesis_in_fresh_interpreters("C03", tier, "parallel-inner", "parallel", 50 if q else 500, 50 if q else 100, 900)),
     ]
